@@ -209,6 +209,7 @@ fn main() {
             let seed: u64 = arg(&args, "--seed").and_then(|s| s.parse().ok()).unwrap_or(1);
             let tier = arg(&args, "--tier").unwrap_or("quick".into());
             let scs: Vec<String> = match family.as_str() {
+                "c07_req" => sendloop::generate(seed, &tier).into_iter().map(|v| v.to_string()).collect(),
                 "charset_split" => charset::generate(seed, &tier).into_iter().map(|v| v.to_string()).collect(),
                 "hostile" => hostile::generate(seed, &tier).into_iter().map(|v| v.to_string()).collect(),
                 "h_large" => head::generate(seed, &tier).into_iter().map(|v| v.to_string()).collect(),
